@@ -70,6 +70,8 @@ func c05Vars() map[string]mj.Recipe {
 		"rg":    {T: "ranger", Ss: []string{"r0", "r1"}},
 		"rp":    {T: "ranger-plain", Ss: []string{"s0", "", "s2"}},
 		"stk":   {T: "stack-ranger", Ss: []string{"bottom", "middle", "top"}},
+		"nrg":   {T: "nilok-ranger"},
+		"okrg":  {T: "nilok-ranger", Ss: []string{"n0", "n1"}},
 		"e_xs":  mj.RInts(),
 		"e_any": mj.RAny(),
 		"e_m":   {T: "map[string]int"},
@@ -115,6 +117,7 @@ var c05Subjects = []c05Subject{
 	{"ints", true, 3, false, false, false},
 	{"rch", false, 2, false, false, true},
 	{"mnan", true, 3, true, false, false},
+	{"nrg", false, 0, false, false, false}, {"okrg", false, 2, false, false, true},
 }
 
 var c05CondVars = []string{"bt", "bf", "i0", "i1", "i8", "u0", "u3", "f0", "f1", "f32", "s0", "s1", "nl", "np", "pu", "us", "nm", "em", "ns", "es", "xs", "e_xs"}
@@ -532,7 +535,7 @@ func judgeC05(c c05Case) (v core.Verdict) {
 
 func TestC05(t *testing.T) {
 	core.Run(t, "C05",
-		"nested if/else-if/else chains (1-4 arms, optional ':=' header whose variable later links and the final else read) and ranges (depth<=3; zero/one/two variables; ':=' and '=') over typed and interface slices, arrays, pointers, maps (string/int keys; multi-entry maps compared as multisets of per-entry renderings), closed channels (also receive-only), slices and arrays of more than 256 elements, ints(a,b) (also one value ranged twice: a cursor), maps with a NaN key, rangeables and conditions handed back by functions declared to return interface{}, index-providing and index-less custom Rangers, empty/nil variants and non-rangeables; conditions over bool/int/uint/float kinds at 0 and non-0, strings, nil, nil and non-nil pointers/maps/slices, structs, and over loop bindings in every form; oracle = MiniJet reference interpreter (the engine runs under a one-minute watchdog: a loop that never ends is a violation); non-trivial = nested range, or a range/if with an else branch",
+		"nested if/else-if/else chains (1-4 arms, optional ':=' header whose variable later links and the final else read) and ranges (depth<=3; zero/one/two variables; ':=' and '=') over typed and interface slices, arrays, pointers, maps (string/int keys; multi-entry maps compared as multisets of per-entry renderings), closed channels (also receive-only), slices and arrays of more than 256 elements, ints(a,b) (also one value ranged twice: a cursor), maps with a NaN key, rangeables and conditions handed back by functions declared to return interface{}, index-providing and index-less custom Rangers, empty/nil variants and non-rangeables; conditions over bool/int/uint/float kinds at 0 and non-0, strings, nil, nil and non-nil pointers/maps/slices, structs, and over loop bindings in every form; also: a custom Ranger whose pointer receiver tolerates nil, as a typed nil pointer and with elements; oracle = MiniJet reference interpreter (the engine runs under a one-minute watchdog: a loop that never ends is a violation); non-trivial = nested range, or a range/if with an else branch",
 		genC05, judgeC05)
 }
 
